@@ -29,6 +29,7 @@ RULE = ("matrix: node kind (11 literal kinds, typed identifier, unary minus, to-
 RULE += (" " + 'Also: unknown fields named like attributes of the resolver objects; a table column that is not an entity attribute; unary minus over float / duration / sums / calls / itself.')
 RULE += (" " + 'Lambda kinds over a relation declared with related_name and a different related_query_name.')
 RULE += (" " + 'Shared-AST lane: one parsed AST handed to all 7 backends in turn (4 orders x 10 filters), each compared with the translation of a fresh parse.')
+RULE += (" " + 'Hybrid-property fields of the mapped class (Post.double_rating, Post.title_lc): 10 filters on the ORM backend.')
 ASSUMPTIONS = ["well-typed w.r.t. the harness models T (scalar) and Post (relational)",
                "geo.* on Django excluded: GeoDjango cannot load here (no GDAL)",
                "database errors for SQL functions SQLite lacks (regexp) are environment "
